@@ -872,8 +872,11 @@ def _isinst(ex, v, n):
                              (isinstance(v, PyTuple) and v.is_list),
              'tuple': lambda: isinstance(ty, TTuple) or
                               (isinstance(v, PyTuple) and not v.is_list),
-             'dict': lambda: isinstance(ty, (TRec, TMap)) or
-                             isinstance(v, PyDict),
+             # a record that models a class instance (it has attribute
+             # properties registered) is not a dict
+             'dict': lambda: (isinstance(ty, TRec) and ty.name not in
+                              getattr(ex.reg, 'rec_props', {})) or
+                             isinstance(ty, TMap) or isinstance(v, PyDict),
              'str': lambda: ty == TStr,
              'int': lambda: ty in (TInt, TBool),
              'float': lambda: ty == TReal,
